@@ -2,7 +2,7 @@
    - the values of a run (c, vs) of a one-run-per-chromosome input are exactly the input's values
      for c, in input order (run_values);
    - the names of the runs are the chromosomes in first-appearance order (run_names);
-   - acceptance itself implies one run per chromosome, for every sort mode (since /repo 6b10d42 a
+   - acceptance itself implies one run per chromosome, for every sort mode (since /repo 4ea85d7 a
      chromosome whose run reappears is refused): BigWigFileThms.write_grouped. *)
 From Coq Require Import Sorting.Sorted.
 From BT Require Import Base.Util Base.Float Model.RTree Model.BBIFile Model.BigWigWrite
